@@ -22,17 +22,18 @@ ITER_MACHINES = ['IterNthVectorMut_assemble', 'IterNthVectorMut_next', 'IterNthV
 OBLIGATIONS = {
     'C03': ITER_MACHINES,
     'C17': ITER_MACHINES,
-    'C01': ['AxisShape_size', 'AxisShape_nrows', 'AxisShape_ncols', 'AxisShape_to_shape', 'Matrix_size', 'Matrix_is_empty', 'Matrix_nrows', 'Matrix_ncols'],
+    'C01': ['AxisShape_size', 'AxisShape_nrows', 'AxisShape_ncols', 'AxisShape_to_shape', 'Matrix_size', 'Matrix_is_empty', 'Matrix_nrows', 'Matrix_ncols',
+            'Matrix_shape', 'Matrix_reshape', 'Shape_new', 'Shape_nrows', 'Shape_ncols', 'Matrix_is_square', 'Matrix_ensure_square'],
     'C04': ['AxisIndex_from_index', 'AxisIndex_is_out_of_bounds', 'AxisIndex_to_flattened', 'Matrix_major', 'Matrix_minor',
             'AxisShape_major', 'AxisShape_minor', 'AxisShape_major_stride', 'AxisShape_minor_stride'],
     'C05': ['Order_switch', 'Shape_transpose', 'AxisShape_transpose', 'AxisIndex_swap', 'AxisIndex_from_flattened', 'AxisIndex_to_flattened'],
     'C06': ['AxisShape_major_stride', 'AxisShape_minor_stride', 'Matrix_major_stride', 'Matrix_minor_stride', 'Matrix_major', 'Matrix_minor'] + ITER_MACHINES,
     'C07': ['AxisIndex_swap', 'AxisIndex_from_flattened', 'AxisIndex_to_flattened'],
     'C08': ['Shape_size', 'Shape_try_to_axis_shape', 'Shape_to_axis_shape_unchecked', 'Matrix_check_size', 'AxisShape_size'],
-    'C09': ['Shape_size', 'Shape_try_to_axis_shape', 'Shape_to_axis_shape_unchecked'],
+    'C09': ['Shape_size', 'Shape_try_to_axis_shape', 'Shape_to_axis_shape_unchecked', 'Matrix_reshape', 'Matrix_size', 'AxisShape_size'],
     'C10': ['AxisIndex_from_index', 'AxisIndex_is_out_of_bounds', 'Matrix_major_stride', 'Matrix_minor_stride', 'Matrix_major', 'Matrix_minor'],
-    'C11': ['Matrix_is_multiplication_like_operation_conformable', 'Matrix_nrows', 'Matrix_ncols', 'AxisShape_nrows', 'AxisShape_ncols'],
-    'C12': ['Matrix_is_elementwise_operation_conformable', 'AxisIndex_swap', 'AxisIndex_from_flattened', 'AxisIndex_to_flattened'],
+    'C11': ['Matrix_is_multiplication_like_operation_conformable', 'Matrix_ensure_multiplication_like_operation_conformable', 'Matrix_nrows', 'Matrix_ncols', 'AxisShape_nrows', 'AxisShape_ncols'],
+    'C12': ['Matrix_is_elementwise_operation_conformable', 'Matrix_ensure_elementwise_operation_conformable', 'AxisIndex_swap', 'AxisIndex_from_flattened', 'AxisIndex_to_flattened'],
     'C13': ['AxisIndex_from_wrapping_index', 'AxisIndex_to_flattened', 'Matrix_is_empty', 'AxisShape_major', 'AxisShape_minor'],
     'C14': ['Matrix_major', 'Matrix_minor', 'Matrix_major_stride'],
     'C15': ['Index_from_flattened', 'Index_to_flattened', 'AxisIndex_to_index', 'AxisIndex_from_flattened', 'AxisIndex_from_index'],
@@ -107,7 +108,7 @@ def gen_check(src_root=None):
     equiv = open(os.path.join(C.COQ, 'Gen', 'Equiv.v')).read()
     prelude = open(os.path.join(C.COQ, 'Gen', 'Prelude.v')).read()
     kernel = (open(os.path.join(C.COQ, 'Model', 'Kernel.v')).read() + open(os.path.join(C.COQ, 'Base', 'Machine.v')).read()
-              + open(os.path.join(C.COQ, 'Model', 'IterMut.v')).read())
+              + open(os.path.join(C.COQ, 'Model', 'IterMut.v')).read() + open(os.path.join(C.COQ, 'Model', 'Ops.v')).read())
     key = hashlib.sha256((gen + '\0' + equiv + '\0' + prelude + '\0' + kernel).encode()).hexdigest()
     cache = os.path.join(GEN_DIR, 'result.json')
     with C.Lock('gen'):
